@@ -321,6 +321,14 @@ Proof.
   - cbn [sstep]. apply sinv_delete_from; [exact Hs|]. intros n Hn. now apply ni_del_pod_ok.
   - cbn [sstep]. apply sinv_delete_from; [exact Hs|]. intros n Hn. now apply ni_del_metric_ok.
   - exact Hs.
+  - cbn [sstep].
+    assert (H1 : sinv cfg (delete_from s t2 (ni_del_pod uid))).
+    { apply sinv_delete_from; [exact Hs|]. intros n Hn. now apply ni_del_pod_ok. }
+    destruct (terminated p || p_resv p) eqn:Eg; [exact H1|].
+    apply orb_false_elim in Eg. destruct Eg as [Et Er].
+    apply sinv_add_or_update; [exact H1| |].
+    + intros n Hn. now apply ni_add_pod_ok.
+    + intro n. apply ni_add_pod_nonempty.
 Qed.
 
 Lemma sinv_exec cfg l s : sinv cfg s -> sinv cfg (fold_left (sstep cfg) l s).
@@ -395,33 +403,36 @@ Definition items_nodup (s : cstate) : Prop := NoDup (map fst (cs_items s)).
 (* two caches that answer every lookup alike *)
 Definition ceq (c c' : cache) : Prop := forall k, alookup k c = alookup k c'.
 
+Lemma items_nodup_aou s t f : items_nodup s -> items_nodup (add_or_update s t f).
+Proof.
+  unfold items_nodup. intro H. unfold add_or_update.
+  destruct (t_obj (reg_of s t)) as [[[oid cr] nm]|]; [|exact H].
+  destruct (alookup oid (cs_heap s)) as [o|]; [|exact H].
+  destruct (negb (can_write t cr o)); [exact H|]. destruct (o_del o); exact H.
+Qed.
+
+Lemma items_nodup_del s t f : items_nodup s -> items_nodup (delete_from s t f).
+Proof.
+  unfold items_nodup. intro H. unfold delete_from.
+  destruct (t_obj (reg_of s t)) as [[[oid cr] nm]|]; [|exact H].
+  destruct (alookup oid (cs_heap s)) as [o|]; [|exact H].
+  destruct (negb (o_lock o =? 0)); [exact H|]. destruct (o_del o); [exact H|].
+  destruct (ni_empty (f (o_n o))); [|exact H]. cbn [set_reg cs_items].
+  destruct (alookup nm (cs_items s)) as [oid'|]; [|exact H].
+  destruct (oid' =? oid); [now apply aremove_nodup|exact H].
+Qed.
+
 Lemma items_nodup_step cfg s a : items_nodup s -> items_nodup (sstep cfg s a).
 Proof.
-  unfold items_nodup. intro H. destruct a; cbn [sstep]; try exact H.
-  - destruct ((t =? 0) || (again && t_ok (reg_of s t))); [exact H|].
+  intro H. destruct a; cbn [sstep]; try exact H.
+  - unfold items_nodup in *. destruct ((t =? 0) || (again && t_ok (reg_of s t))); [exact H|].
     destruct (alookup node (cs_items s)); [exact H|]. cbn [set_reg cs_items]. now apply aset_nodup.
-  - destruct (terminated p || p_resv p); [exact H|]. unfold add_or_update.
-    destruct (t_obj (reg_of s t)) as [[[oid cr] nm]|]; [|exact H].
-    destruct (alookup oid (cs_heap s)) as [o|]; [|exact H].
-    destruct (negb (can_write t cr o)); [exact H|]. destruct (o_del o); exact H.
-  - unfold add_or_update.
-    destruct (t_obj (reg_of s t)) as [[[oid cr] nm]|]; [|exact H].
-    destruct (alookup oid (cs_heap s)) as [o|]; [|exact H].
-    destruct (negb (can_write t cr o)); [exact H|]. destruct (o_del o); exact H.
-  - unfold delete_from.
-    destruct (t_obj (reg_of s t)) as [[[oid cr] nm]|]; [|exact H].
-    destruct (alookup oid (cs_heap s)) as [o|]; [|exact H].
-    destruct (negb (o_lock o =? 0)); [exact H|]. destruct (o_del o); [exact H|].
-    destruct (ni_empty (ni_del_pod uid (o_n o))); [|exact H]. cbn [set_reg cs_items].
-    destruct (alookup nm (cs_items s)) as [oid'|]; [|exact H].
-    destruct (oid' =? oid); [now apply aremove_nodup|exact H].
-  - unfold delete_from.
-    destruct (t_obj (reg_of s t)) as [[[oid cr] nm]|]; [|exact H].
-    destruct (alookup oid (cs_heap s)) as [o|]; [|exact H].
-    destruct (negb (o_lock o =? 0)); [exact H|]. destruct (o_del o); [exact H|].
-    destruct (ni_empty (ni_del_metric (o_n o))); [|exact H]. cbn [set_reg cs_items].
-    destruct (alookup nm (cs_items s)) as [oid'|]; [|exact H].
-    destruct (oid' =? oid); [now apply aremove_nodup|exact H].
+  - destruct (terminated p || p_resv p); [exact H|]. now apply items_nodup_aou.
+  - now apply items_nodup_aou.
+  - now apply items_nodup_del.
+  - now apply items_nodup_del.
+  - destruct (terminated p || p_resv p); [now apply items_nodup_del|].
+    apply items_nodup_aou. now apply items_nodup_del.
 Qed.
 
 Lemma abs_lookup_gen (heap : list (Z * nobj)) (it : list (Z * Z)) k :
